@@ -104,7 +104,12 @@ class O2JMap(Map[O2JNoteList, O2JHitList, O2JHoldList, O2JBpmList]):
         for note in notes:
             note.offset = note_measure_dict[note.measure]
             if isinstance(note, O2JHold):  # Special case for LN.
-                note.length = note_measure_dict[note.tail_measure] - note.offset
+                # float(): a numpy scalar would be cast by the item setter to
+                # the (integer) dtype the item still has when its offset is
+                # integral, truncating the length to whole milliseconds.
+                note.length = float(note_measure_dict[note.tail_measure]) - float(
+                    note.offset
+                )
 
         # We add the missing first BPM here
         bpms.insert(0, O2JBpm(offset=0, bpm=init_bpm))
